@@ -125,6 +125,17 @@ def evaluate(ctx, cases):
                     ok = False
                     i = next(i for i, (p, q) in enumerate(zip(u.tolist(), v.tolist())) if not ((p != p and q != q) or p * scale == q))
                     info['judge'] = 'column %s row %d: %r (x %g) vs %r' % (col, i, u[i], scale, v[i]); break
+        if ok and c['kind'] == 'amp' and c['method'] == 'cycles' and any(col.startswith('sample_') for col in a.columns):
+            # the step-by-step route on the same recordings: the feature functions called directly on the (possibly integer-typed) samples give the table's columns,
+            # before and after the rescaling
+            try:
+                from bycycle.features.burst import compute_monotonicity
+                for tab, arr in ((a, x), (b, x * f)):
+                    mono = implutil.quiet(compute_monotonicity, tab, arr)
+                    if not all((u != u and v != v) or u == v for u, v in zip(np.asarray(mono, float).tolist(), tab['monotonicity'].values.tolist())):
+                        ok = False; info['judge'] = 'compute_monotonicity called directly on the %s samples differs from the monotonicity column of compute_features' % np.asarray(arr).dtype; break
+            except Exception as e:
+                ok = False; info['judge'] = 'compute_monotonicity raised %s on the samples compute_features analysed' % type(e).__name__
         ctx.hist('kind', c['kind']); ctx.hist('method', c['method']); ctx.hist('dtype', c.get('dtype', 'float64'))
         out.append(Result(c, judge_ok=ok, corr_ok=ok, sig=key, nontrivial=(len(a) >= 3 and c['k'] != 0), info=info))
     return out
